@@ -89,6 +89,7 @@ type OpM struct {
 	Raw    *RawB      `json:"raw,omitempty"`
 	Type   string     `json:"type,omitempty"`
 	Labels []string   `json:"labels,omitempty"`
+	Keep   int        `json:"keep,omitempty"` // set_labels: keep this many of the current labels in front of Labels
 	Pre    []OpM      `json:"pre,omitempty"` // edits applied to a fresh block before it is appended
 	K      int        `json:"k,omitempty"`   // bytes a failing writer accepts
 	Chunk  int        `json:"chunk,omitempty"`
